@@ -2579,6 +2579,17 @@ impl VmGreenThread {
             }
         }
         if self.gray_stack.is_empty() {
+            // The write barrier only covers stores into heap objects. A white object that was
+            // moved from the heap onto the operand stack since the roots were scanned (e.g. by
+            // ArrayPop, or a GetIndex followed by overwriting the slot) would be missed, so
+            // re-scan the roots and only finish marking once that finds nothing new.
+            for v in self.value_stack.iter() {
+                Self::mark(v, &mut self.gray_stack, self.gc_visited);
+            }
+            Self::mark(&self.string_operand1, &mut self.gray_stack, self.gc_visited);
+            Self::mark(&self.string_operand2, &mut self.gray_stack, self.gc_visited);
+        }
+        if self.gray_stack.is_empty() {
             self.gc_state = GcState::Sweeping { index: 0 };
         }
     }
